@@ -310,6 +310,84 @@ def rule_condspec(ctx, prop: str) -> RuleResult:
          "the precision of every numeric read is re-derived from the declaration of the buffer it names; trusting the stored annotation "
          "lets a stale one through (a window alias of a buffer whose precision was changed): mixed-precision arithmetic and mistyped "
          "window arguments reach the C compiler"),
+        # ---- raising guards of the scheduling primitives: what gets through must satisfy the side condition
+        (("C01",), S_, "DoReorderStmt", "reject", "next()", "f_cursor.next() == s_cursor", ("f_cursor", "s_cursor"), None,
+         "reorder_stmts swaps two ADJACENT statements; the commutation check is made on that pair only"),
+        (("C01",), S_, "DoJoinLoops", "reject", "next()", "loop1_c.next() == loop2_c", ("loop1_c", "loop2_c"), None,
+         "join_loops needs the second loop directly after the first"),
+        (("C01",), S_, "DoJoinLoops", "reject", "match_stmts", "compare_ir.match_stmts(loop1.body, loop2.body)", ("compare_ir", "loop1", "loop2"), None,
+         "join_loops keeps one body: both bodies must be identical"),
+        (("C01",), S_, "DoMergeWrites", "reject", "same_write_dest", "same_write_dest(c1.get_root(), s1, s2)", ("c1", "s1", "s2"), None,
+         "merge_writes drops the first write: both must write the same location"),
+        (("C01",), S_, "DoSplitWrite", "reject", ".BinOp", "isinstance(s.rhs, LoopIR.BinOp) and s.rhs.op == '+'", ("s",), None,
+         "split_write turns a = x + y into a = x; a += y: the right-hand side must be an addition"),
+        (("C01",), S_, "DoFoldIntoReduce", "reject", ".BinOp", "isinstance(assign_s.rhs, LoopIR.BinOp) and assign_s.rhs.op == '+'", ("assign_s",), None,
+         "fold_into_reduce turns a = a + y into a += y: the right-hand side must be an addition"),
+        (("C01",), S_, "DoFoldIntoReduce", "reject", "access_to_str", "isinstance(assign_s.rhs.lhs, LoopIR.Read) and access_to_str(assign_s) == access_to_str(assign_s.rhs.lhs)", ("assign_s",), None,
+         "fold_into_reduce: the left operand must be a read of exactly the destination"),
+        (("C01",), S_, "DoInlineAssign", "reject", "writes", "s1.name not in [name for name, _ in writes]", ("s1",), None,
+         "inline_assign substitutes the right-hand side at later reads: the buffer must not be written again"),
+        (("C01",), S_, "DoDivideWithRecompute", "reject", "is_const_zero", "is_const_zero(loop.lo)", ("loop",), None,
+         "divide_with_recompute computes indices as stride * io + ii: the loop must start at 0"),
+        (("C01",), S_, "DoDivideLoop", "reject", "is_const_zero", "is_const_zero(loop.lo)", ("loop",), None,
+         "divide_loop computes indices as quot * io + ii: the loop must start at 0"),
+        (("C01",), S_, "DoUnroll", "reject", ".Const", "isinstance(s.hi, LoopIR.Const) and isinstance(s.lo, LoopIR.Const)", ("s",), None,
+         "unroll_loop enumerates range(lo.val, hi.val): both bounds must be literals"),
+        (("C01", "C10"), S_, "DoCallSwap", "reject", "is_eqv", "is_eqv", ("is_eqv",), None,
+         "call_eqv may only swap in a procedure recorded as equivalent"),
+        (("C01",), S_, "DoRemoveLoop", "reject", "_FV", "s.iter not in _FV(s.body)", ("s",), None,
+         "remove_loop keeps one copy of the body: it must not mention the iterator"),
+        (("C01", "C04"), S_, "DoSinkAlloc", "reject", "accesses", "alloc_stmt.name not in [name for name, _ in accesses]", ("alloc_stmt",), None,
+         "sink_alloc moves the allocation into a scope: nothing after the scope may use the buffer"),
+        (("C01",), S_, "DoFuseLoop", "reject", "next()", "f_cursor.next() == s_cursor", ("f_cursor", "s_cursor"), None,
+         "fuse needs the second loop directly after the first"),
+        (("C01",), S_, "DoFuseIf", "reject", "next()", "f_cursor.next() == s_cursor", ("f_cursor", "s_cursor"), None,
+         "fuse needs the second if directly after the first"),
+        (("C01",), S_, "DoInsertNoopCall", "reject", ".Pass", "len(body) == 1 and isinstance(body[0], LoopIR.Pass)", ("body",), None,
+         "only a procedure whose body is `pass` may be inserted as a no-op"),
+        (("C01", "C04"), S_, "DoLiftAllocSimple", "reject", "szvars", "stmt_c._node.iter not in szvars", ("stmt_c",), None,
+         "an allocation whose size mentions a loop iterator cannot be lifted out of that loop (the size would be unbound)"),
+        (("C01",), S_, "DoLiftScope", "reject", "len(outer_s.body)", "len(outer_s.body) <= 1", ("outer_s",), None,
+         "lift_scope interchanges a scope with its parent: it must be the parent's only statement"),
+        (("C01",), S_, "DoLiftScope", "reject", "len(outer_s.orelse)", "len(outer_s.orelse) <= 1", ("outer_s",), None,
+         "lift_scope out of an else branch: the scope must be the branch's only statement"),
+        (("C01",), S_, "DoLiftScope", "reject", "_FV", "outer_s.iter not in _FV(inner_s.cond)", ("outer_s", "inner_s"), None,
+         "an if can be lifted out of a loop only when its condition does not mention the iterator"),
+        (("C01",), S_, "DoLiftScope", "reject", "reads", "outer_s.iter not in [name for name, _ in reads]", ("outer_s",), None,
+         "loops can be interchanged only when the inner bounds do not mention the outer iterator"),
+        (("C01",), S_, "DoLiftConstant", "reject", "assign_s.type", "not (assign_s.name == name and assign_s.type == typ)", ("assign_s", "name", "typ"), None,
+         "lift_constant: the accumulated buffer must not be read inside the loop"),
+        (("C01",), S_, "DoLiftConstant", "reject", "only_has_scaled_reduces", "only_has_scaled_reduces", ("only_has_scaled_reduces",), None,
+         "lift_constant: every operation on the buffer in the loop must be `buf += c * e`"),
+        (("C01",), S_, "DoLiftConstant.find_relevant_scaled_reduces", "reject", "same_write_dest",
+         "same_write_dest(orig_proc, assign_s, s) and isinstance(s.rhs, LoopIR.BinOp) and s.rhs.op == '*' and isinstance(s.rhs.lhs, (LoopIR.Const, LoopIR.Read))", ("s",), "flag",
+         "lift_constant: a reduce counts as scaled only if it writes the same location and its right-hand side is c * e with c a literal or a read"),
+        (("C01",), S_, "DoLiftConstant", "reject", "reduces_have_same_constant", "reduces_have_same_constant(relevant_reduces[0]._node, s._node)", ("s",), None,
+         "lift_constant factors one constant out: all scaled reduces must use the same one"),
+        (("C01",), S_, "DoLiftConstant", "reject", "live_vars", "name in live_vars", ("name",), None,
+         "lift_constant: the factor must be defined outside the loop"),
+        (("C01",), S_, "DoLiftConstant", "reject", "constant.type", "not (constant.name == name and constant.type == typ)", ("constant", "name", "typ"), None,
+         "lift_constant: the factor must not be written inside the loop"),
+        (("C01",), S_, "DoMultiplyDim", "reject", "lo_dim", "isinstance(lo_dim, LoopIR.Const)", ("lo_dim",), None,
+         "mult_dim folds hi * c + lo: the low dimension must be a literal c"),
+        (("C01",), S_, "DoSpecialize", "reject", "is_valid_condition", "is_valid_condition(cond)", ("cond",), None,
+         "specialize duplicates the block under an index comparison only"),
+        (("C01", "C04"), S_, "DoFissionLoops.alloc_check", "reject", "_is_alloc_free", "_is_alloc_free(pre, post)", ("pre", "post"), None,
+         "autofission must not separate an allocation from its uses"),
+        (("C01",), S_, "DoBindExpr", "reject", "len(expr_cursors)", "len(expr_cursors) <= 0", ("expr_cursors",), None,
+         "bind_expr must have replaced every requested occurrence (those left over could not be bound safely)"),
+        (("C01",), S_, "CheckFoldBuffer.update_access_window", "reject", ".lo is None", "not (bounds.lo is None or self.access_window_per_scope[-1].hi is None)", ("bounds",), None,
+         "fold_buffer: variable-width access windows cannot be analysed and must be refused"),
+        (("C01",), S_, "CheckFoldBuffer.update_access_window", "reject", "self.size", "bounds.lo > self.access_window_per_scope[-1].hi - self.size", ("bounds",), None,
+         "fold_buffer: a statement may not reach back `size` or more elements before the largest earlier access (its slot has been overwritten modulo size)"),
+        (("C01",), S_, "CheckFoldBuffer.do_s", "reject", "+ c", "bounds.lo + c > bounds.hi - self.size", ("bounds", "c"), None,
+         "fold_buffer: iteration i+1 may not reach back `size` or more elements before the largest access of iteration i"),
+        (("C01",), S_, "CheckFoldBuffer.do_s", "reject", "rhs_window_size", "not (rhs_window_size is None or rhs_window_size > self.size)", ("rhs_window_size",), None,
+         "fold_buffer: the reads of one right-hand side must fit in `size` consecutive elements"),
+        (("C01",), S_, "DoUnrollBuffer", "reject", "buf_size", "isinstance(buf_size, LoopIR.Const)", ("buf_size",), None,
+         "unroll_buffer creates one scalar per index: the dimension must be a literal"),
+        (("C01",), S_, "DoStageMem", "reject", "len(w_exprs)", "len(w_exprs) == len(buf_typ.shape())", ("w_exprs", "buf_typ"), None,
+         "stage_mem: the window must give one coordinate per dimension of the buffer"),
         (("C10", "C01"), NE_, "stmts_effs", "accept", "ReadConfig", "fa.type.is_numeric() and isinstance(a, LoopIR.ReadConfig)", ("fa", "a"), None,
          "only a numeric (by-reference) configuration argument may be skipped when collecting the reads of a call; a control-typed "
          "`Cfg.f` argument is a read of the field — without it delete_config/write_config/call_eqv consider the field unread"),
@@ -322,6 +400,10 @@ def rule_condspec(ctx, prop: str) -> RuleResult:
         f = ix.func(file, qn)
         res.analysed.append(f"{file}:{qn}")
         cands = [n for n in f.body_nodes() if isinstance(n, ast.If) and marker in ast.unparse(n.test)]
+        if mode == "reject":
+            if must != "flag":
+                cands = [n for n in cands if always_raises(n.body) or any(isinstance(x, ast.Call) and last_name(x) in ("err", "err_handler") for st in n.body for x in ast.walk(st))]
+            must = None
         if must is not None:
             cands = [n for n in cands if any(must in ast.unparse(st) for st in n.body)]
             if not cands:
@@ -339,7 +421,12 @@ def rule_condspec(ctx, prop: str) -> RuleResult:
             continue
         spec_ast = ast.parse(spec_src, mode="eval").body
         fixed = {x.id for x in ast.walk(spec_ast) if isinstance(x, ast.Name)} - set(locs)
-        for n in cands:
+        row_instances = 0
+        for n in cands + [None]:
+            if n is None:
+                if row_instances == 0:
+                    raise AnalysisError(f"CONDSPEC row {qn}/{marker}: {len(cands)} condition(s) mention `{marker}` but none has the specified form `{spec_src[:60]}` (rewritten guard: re-confirm the row)")
+                break
             names = sorted({x.id for x in ast.walk(n.test) if isinstance(x, ast.Name)} - fixed)
             best = None  # (shared atoms, ok, cex, spec text)
             for perm in itertools.permutations(names, min(len(locs), len(names))):
@@ -365,6 +452,7 @@ def rule_condspec(ctx, prop: str) -> RuleResult:
             if best is None:
                 continue  # another test that merely mentions the marker
             ok, shared, cex, sp_txt = best
+            row_instances += 1
             res.instances += 1
             res.nontrivial += 1
             res.ob(ok)
